@@ -171,6 +171,11 @@ impl Slaac {
             return;
         }
 
+        // The prefix length is taken from the network: no IPv6 prefix is longer than 128 bits.
+        if prefix.prefix_len > 128 {
+            return;
+        }
+
         let cidr = Ipv6Cidr::new(prefix.prefix, prefix.prefix_len);
 
         if prefix.valid_lifetime > Duration::ZERO {
